@@ -5,7 +5,7 @@ PROP = {'areas': [{'area': 'c02',
             'quick': 20000,
             'thorough': 1000000},
            {'area': 'engine',
-            'corpus': ['corpus/engine/d25_connect311_empty_client_id.script'],
+            'corpus': ['corpus/engine/d25_connect311_empty_client_id.script', 'corpus/engine/d27_assigned_client_id_nul.script'],
             'extra': ['100'],
             'only_prop': 'C02',
             'quick': 3000,
